@@ -283,6 +283,40 @@ def run(prop, tier, seed):
                 okq = okq and (pr2 is not v_in)
         num("prolongate-same-length-other-order", ok=okq, curve=name)
         stats.append({"curve": name, "elements": N})
+    # a mesh refined eleven times towards one corner (h_t = h_x = 2^-11 there: <V psi, psi> of the smallest elements is about
+    # 1e-11): the hierarchical indicators of the smallest and of the largest elements against the definition on real children
+    from src.parametrization import UnitSquare as _US
+    from src.mesh import MeshParametrized as _MP
+    with contextlib.redirect_stdout(io.StringIO()):
+        dm = _MP(_US())
+        e = [x for x in dm.leaf_elements if float(x.space_interval[0]) == 0.0][0]
+        for _ in range(11):
+            ch4 = dm.refine(e)
+            e = min(ch4, key=lambda c: (float(c.time_interval[0]), float(c.space_interval[0])))
+        delems = list(dm.leaf_elements)
+        dSL = SingleLayerOperator(dm)
+        dPhi = np.array([rng.uniform(0.5, 1.5) for _ in delems])
+        dglin = lambda es: np.array([x.h_t * x.h_x for x in es])
+        dest = HierarchicalErrorEstimator(SL=dSL, g=dglin).estimate(delems, dPhi)
+        order_sz = sorted(range(len(delems)), key=lambda i: float(delems[i].h_t * delems[i].h_x))
+        worst_deep = 0
+        for i in order_sz[:3] + order_sz[-1:]:
+            E = delems[i]
+            chd = DummyElement.uniform_refinement([E])[0]
+            dSL._init_elems(chd)
+            t0, t1 = map(float, E.time_interval)
+            x0, x1 = map(float, E.space_interval)
+            tm, xm = (t0 + t1) / 2, (x0 + x1) / 2
+            sg = lambda f: (1 if float(f.time_interval[1]) <= tm + 1e-12 else -1, 1 if float(f.space_interval[1]) <= xm + 1e-12 else -1)
+            S = np.array([[dSL.bilform(b, a) for b in chd] for a in chd])
+            est = []
+            for pat in ("t", "x", "tx"):
+                sv = np.array([sg(f)[0] if pat == "t" else sg(f)[1] if pat == "x" else sg(f)[0] * sg(f)[1] for f in chd], float)
+                data = sum(sc * (f.h_t * f.h_x - sum(dSL.bilform(tr, f) * dPhi[j] for j, tr in enumerate(delems))) for sc, f in zip(sv, chd))
+                est.append(abs(data) ** 2 / float(sv @ S @ sv))
+            for c, refv in ((0, est[0] + 0.5 * est[2]), (1, est[1] + 0.5 * est[2])):
+                worst_deep = max(worst_deep, dev(dest[i, c], refv, 1e-6 * abs(refv) + 1e-30))
+    recs.append({"k": "num", "cls": "hier-definition-deep-corner", "dev": worst_deep, "curve": "UnitSquare", "n": len(delems)})
     # with initial data (Singular problem on the unit square, u0 = 1)
     from src.initial_mesh import UnitSquareBoundaryRefined
     from src.initial_potential import InitialOperator
